@@ -406,7 +406,7 @@ func c16LibraryCase(rt *rapid.T, rec *vt.Rec) {
 func TestC16Library(t *testing.T) {
 	rec := vt.For("C16")
 	rec.Rule("library level: a receiver family (exported/unexported methods, context first or absent, 0-3 parameters of string/int64/bool/struct/slice/pointer, trailing optional pointer, error-only and value+error returns, a method with an unexported parameter type) is registered under a generated prefix and allow-list (incl. allow-listed names that do not exist), followed by 0-2 RegisterMethod calls that add a name or re-declare a registered one with another method; generated probes: exact names, Go-case names, upper/lower-case variants, missing/other prefix, suffixes, helper and unexported names, random names; parameters: every arity 0..k+2, every JSON kind per position, absent / null / object / scalar params; oracle (hand-written table): callable <=> prefix+lowerFirst(name) of an exposed method in the allow-list; unknown => -32601 and nothing runs; wrong arity or incompatible JSON kind => -32602 and nothing runs; correct => exactly one invocation with the decoded values; every reply carries the request id and a result or an error; null for a non-pointer position is a don't-care; non-trivial = a near-miss name or wrong parameters on a registered name; distinct by prefix + allow-list + probes")
-	rapid.Check(t, func(rt *rapid.T) { c16LibraryCase(rt, rec) })
+	check(t, func(rt *rapid.T) { c16LibraryCase(rt, rec) })
 }
 
 // ---------------------------------------------------------------------------
@@ -549,7 +549,7 @@ func TestC16Binary(t *testing.T) {
 		}
 		rec.Extra("binary_grid_probes", grid)
 	}
-	rapid.Check(t, func(rt *rapid.T) {
+	check(t, func(rt *rapid.T) {
 		transport := rapid.SampledFrom([]string{"http", "ws"}).Draw(rt, "transport")
 		var name string
 		kinds, documented := []string(nil), false
@@ -761,7 +761,7 @@ func TestC16AgentBinary(t *testing.T) {
 	}
 	names := []string{"vipnode_whitelist", "vipnode_whitelist", "vipnode_Whitelist", "vipnode_start", "vipnode_stop", "vipnode_wait", "vipnode_updatePeers", "vipnode_addPeers", "vipnode_disconnect",
 		"vipnode_ping", "vipnode_connect", "whitelist", "Whitelist", "agent_whitelist", "vipnode_whitelistx", "vipnode_", "", "admin_addTrustedPeer", "vipnode_enode", "vipnode_peers"}
-	rapid.Check(t, func(rt *rapid.T) {
+	check(t, func(rt *rapid.T) {
 		name := rapid.SampledFrom(names).Draw(rt, "name")
 		arity := rapid.IntRange(0, 3).Draw(rt, "arity")
 		var params []interface{}
